@@ -113,6 +113,15 @@ def main(argv=None):
         for k, n in s["violation_counts"].items():
             vcount[k] = vcount.get(k, 0) + n
 
+    # reach accounting: union over shards of the anchored lines executed
+    reach = {}
+    for s in shards:
+        for rel, r in (s.get("reach") or {}).items():
+            e = reach.setdefault(rel, {"hit": set(), "executable": r["executable"]})
+            e["hit"].update(r["lines_hit"])
+    anchor_reach = {rel: {"lines_executed": len(e["hit"]), "executable_lines": e["executable"],
+                          "percent": round(100.0 * len(e["hit"]) / e["executable"], 1) if e["executable"] else None}
+                    for rel, e in sorted(reach.items())}
     unlisted = {}
     known_hit = {}
     for v in violations:
@@ -155,6 +164,7 @@ def main(argv=None):
         "shards": len(shards),
         "violation_counts_by_mechanism": vcount,
         "known_findings_hit": sorted(known_hit),
+        "anchor_reach": anchor_reach,
         "verdict": "violated" if unlisted else ("inconclusive" if problems else "held on what was observed"),
     }
     if problems:
